@@ -40,6 +40,7 @@ var memoPrelude = []string{
 	"g = 0", "G = 10", "h = func(x) {x + 1}",
 	"fpure = func(x) {x * 2}", "flower = func(x) {x + g}", "fupper = func(x) {x + G}", "fcallee = func(x) {h(x)}",
 	`fprint = func(x) {println("in fprint", x); x}`, `ferror = func(x) {error("bad", x)}`, "fimpure = func(x) {x + vcount()}",
+	"fwraplower = func(x) {flower(x)}", "finv = func(x) {1 / x}", "hset = func(k) {h = func(x) {x + k}}",
 	"mklower = func(v) {func(y) {y + v}}", "mkupper = func(V) {func(y) {y + V}}", "mkfunc = func(c) {func(y) {c(y)}}",
 }
 
@@ -49,7 +50,11 @@ func instantiateMemo(ops []memoOp) []string {
 	for _, op := range ops {
 		switch op.Op {
 		case "call":
-			in = append(in, fmt.Sprintf("println(f%s(%d))", op.Kind, op.A))
+			if op.Kind == "inv" {
+				in = append(in, fmt.Sprintf("println(finv(%s))", []string{"0.0", "-0.0"}[op.A-1]))
+			} else {
+				in = append(in, fmt.Sprintf("println(f%s(%d))", op.Kind, op.A))
+			}
 		case "closure":
 			switch op.Cap {
 			case "func":
@@ -62,6 +67,9 @@ func instantiateMemo(ops []memoOp) []string {
 		case "redefh":
 			hver = 3 - hver
 			in = append(in, fmt.Sprintf("h = func(x) {x + %d}", hver))
+		case "redefhinside":
+			hver = 3 - hver
+			in = append(in, fmt.Sprintf("hset(%d)", hver))
 		case "redefconst":
 			cst = 30 - cst
 			in = append(in, "del(G)", fmt.Sprintf("G = %d", cst))
@@ -95,14 +103,14 @@ func memoSignature(inputs []string) string {
 
 func checkC04(c *Ctx) {
 	// 1. design level: each exemption of the pinned tree, without its guard, serves a stale hit
-	for _, dev := range [][2]bool{{false, true}, {true, false}} {
+	for _, dev := range [][4]bool{{false, true, true, true}, {true, false, true, true}, {true, true, false, true}, {true, true, true, false}} {
 		b := func(x bool) string {
 			if x {
 				return "TRUE"
 			}
 			return "FALSE"
 		}
-		cfg := fmt.Sprintf("CONSTANTS\n MaxOps = 3\n ExemptOnlyTopLevel = %s\n ResetOnRedefinition = %s\n EmitOn = FALSE\nINIT Init\nNEXT Next\nVIEW view\nINVARIANTS ObsCorrect HitSound\n", b(dev[0]), b(dev[1]))
+		cfg := fmt.Sprintf("CONSTANTS\n MaxOps = 3\n ExemptOnlyTopLevel = %s\n ResetOnRedefinition = %s\n MissPropagates = %s\n ZeroSignDistinct = %s\n EmitOn = FALSE\nINIT Init\nNEXT Next\nVIEW view\nINVARIANTS ObsCorrect HitSound\n", b(dev[0]), b(dev[1]), b(dev[2]), b(dev[3]))
 		r, err := c.TLC(TLCOpt{Spec: "Memo", Cfg: cfg, Workers: 4, AllowError: true})
 		if err != nil {
 			c.Infra(err)
@@ -113,11 +121,11 @@ func checkC04(c *Ctx) {
 			return
 		}
 	}
-	c.Cov("design_counterexamples", "ExemptOnlyTopLevel=FALSE and ResetOnRedefinition=FALSE each violate ObsCorrect (stale hit)")
+	c.Cov("design_counterexamples", "ExemptOnlyTopLevel, ResetOnRedefinition, MissPropagates, ZeroSignDistinct = FALSE each violate ObsCorrect (stale hit)")
 
 	// 2. MC + GEN
 	maxOps := c.Pick(4, 5)
-	cfg := fmt.Sprintf("CONSTANTS\n MaxOps = %d\n ExemptOnlyTopLevel = TRUE\n ResetOnRedefinition = TRUE\n EmitOn = TRUE\nINIT Init\nNEXT Next\nVIEW view\nINVARIANTS ObsCorrect HitSound\n", maxOps)
+	cfg := fmt.Sprintf("CONSTANTS\n MaxOps = %d\n ExemptOnlyTopLevel = TRUE\n ResetOnRedefinition = TRUE\n MissPropagates = TRUE\n ZeroSignDistinct = TRUE\n EmitOn = TRUE\nINIT Init\nNEXT Next\nVIEW view\nINVARIANTS ObsCorrect HitSound\n", maxOps)
 	r, err := c.TLC(TLCOpt{Spec: "Memo", Cfg: cfg, Workers: 8})
 	if err != nil {
 		c.Infra(err)
@@ -193,6 +201,9 @@ func checkC04(c *Ctx) {
 		{"G = 1", "f = func(x) {x + G}", "println(f(1))", "del(G)", "G = 2", "println(f(1))"},
 		{`f = func(x) {println("side", x); x}`, "println(f(1))", "println(f(1))", "println(f(1), f(1))"},
 		{"f = func(a, b, c, d, e) {a + e}", "println(f(1, 2, 3, 4, 5))", "println(f(1, 2, 3, 4, 6))"},
+		{"x = 1", "g = func() {x}", "f = func() {g()}", "println(f())", "x = 2", "println(f())"},
+		{"h = func(x) {x + 1}", "f = func(x) {h(x)}", "println(f(1))", "set = func() {h = func(x) {x + 2}}", "set()", "println(f(1))"},
+		{"f = func(x) {1 / x}", "println(f(0.0))", "println(f(-0.0))", "println(f(0.0))"},
 		{"f = func(a) {len(a)}", "println(f([1, 2]))", "println(f([1, 2, 3]))", `println(f({"a": 1}))`},
 		{"f = func(x) {x + vcount()}", "println(f(1))", "println(f(1))"},
 		{`f = func(x) {if x > 1 {error("e")} else {x}}`, "println(catch(f(2)).err)", "println(catch(f(2)).err)"},
